@@ -43,6 +43,7 @@ THEOREMS = [
     "Jinns.Rar.active_le_store",
     "Jinns.Rar.exhausted_forever",
     "Jinns.Rar.model_trace_holds",
+    "Jinns.Rar.legal_wf",
 ]
 LEAN_MODULES = ["JinnsProofs.C16"]
 RULE = ("cases = (generator kind, allocation sizes, selected/sample sizes, batch sizes, start, every, number of "
@@ -54,8 +55,9 @@ ASSUMPTIONS = [
     "a refinement step is observed as a record of the guarded hook of rar_step_true (JINNS_VERIF=1)",
     "in jinns.solve the iteration index of a step is the number of optimizer updates that preceded it minus one "
     "(ordered debug callbacks keep program order)",
-    "update_every >= 1 and selected sizes >= 1 (the theorems' hypotheses); selected sizes do not exceed the sample and "
-    "store sizes (otherwise jax rejects the program at trace time)",
+    "legal configurations (Holds.legalCfg: update_every >= 1, 1 <= n_start <= n, 1 <= selected <= sample size and "
+    "<= n, 1 <= batch <= n, n_start given) must run: their rejection at construction or trace time is the Holds "
+    "clause valid-configuration-rejected; legal_wf: every legal configuration is within the theorems' hypotheses",
 ]
 EXHAUSTIVE = {"quick": False, "thorough": True}
 
@@ -72,6 +74,8 @@ _STATIO = [
     (2, (6, 2, 1, 4, 2)),   # capacity 4
     (2, (4, 4, 2, 3, 2)),   # capacity 0
     (2, (7, 2, 3, 4, 2)),   # capacity 1
+    (1, (7, 2, 3, 4, 2)),   # 1-D space domain, capacity 1
+    (1, (9, 3, 2, 3, 1)),   # 1-D space domain, capacity 3
 ]
 _NONSTATIO = [
     (2, (6, 2, 1, 3, 2), (8, 3, 2, 4, 2)),   # time 4, space 2 -> 2
@@ -80,6 +84,8 @@ _NONSTATIO = [
     (2, (4, 4, 1, 2, 2), (6, 2, 1, 2, 2)),   # time full -> 0
     (2, (7, 1, 3, 4, 1), (6, 3, 1, 3, 1)),   # selT > selX: time 2, space 3 -> 2
     (2, (9, 1, 2, 3, 1), (9, 1, 2, 3, 1)),   # -> 4
+    (1, (8, 2, 2, 3, 2), (8, 3, 2, 3, 2)),   # 1-D space domain: time 3, space 2 -> 2
+    (1, (6, 2, 1, 3, 1), (7, 1, 3, 4, 1)),   # 1-D space domain: time 4, space 2 -> 2
 ]
 
 
@@ -141,14 +147,17 @@ def gen_cases(rng, tier):
                         ("statio", 2, None, _STATIO[0][1]), ("statio", 2, None, _STATIO[3][1]),
                         ("nonstatio", 2, _NONSTATIO[0][1], _NONSTATIO[0][2]),
                         ("nonstatio", 2, _NONSTATIO[4][1], _NONSTATIO[4][2]),
-                        ("nonstatio", 2, _NONSTATIO[3][1], _NONSTATIO[3][2])]
+                        ("nonstatio", 2, _NONSTATIO[3][1], _NONSTATIO[3][2]),
+                        ("statio", 1, None, _STATIO[4][1]),
+                        ("nonstatio", 1, _NONSTATIO[6][1], _NONSTATIO[6][2])]
         for kind, dim, T, X in trig_statics:
             base = _base(rng, kind, dim, T, X, "trigger")
             scheds = [(0, 1), (2, 3)] + rng.sample(all_sched, 6)
             for s, e in dict.fromkeys(scheds):
                 cases.append(_with_schedule(base, s, e))
         solve_statics = [("ode", 0, _ODE[0], None), ("statio", 2, None, _STATIO[0][1]),
-                         ("nonstatio", 2, _NONSTATIO[0][1], _NONSTATIO[0][2])]
+                         ("nonstatio", 2, _NONSTATIO[0][1], _NONSTATIO[0][2]),
+                         ("nonstatio", 1, _NONSTATIO[6][1], _NONSTATIO[6][2])]
         for kind, dim, T, X in solve_statics:
             base = _base(rng, kind, dim, T, X, "solve")
             for s, e in dict.fromkeys([(0, 1)] + rng.sample(all_sched, 2)):
@@ -167,7 +176,8 @@ def gen_cases(rng, tier):
         solve_statics = [("ode", 0, _ODE[0], None), ("ode", 0, _ODE[2], None),
                          ("statio", 2, None, _STATIO[0][1]), ("statio", 2, None, _STATIO[3][1]),
                          ("nonstatio", 2, _NONSTATIO[0][1], _NONSTATIO[0][2]),
-                         ("nonstatio", 2, _NONSTATIO[4][1], _NONSTATIO[4][2])]
+                         ("nonstatio", 2, _NONSTATIO[4][1], _NONSTATIO[4][2]),
+                         ("statio", 1, None, _STATIO[5][1])]
         for kind, dim, T, X in solve_statics:
             base = _base(rng, kind, dim, T, X, "solve")
             for s, e in all_sched:
@@ -175,15 +185,8 @@ def gen_cases(rng, tier):
     # a rejected configuration: rar_parameters without the initial count
     bad = _with_schedule(_base(rng, "ode", 0, _ODE[0], None, "trigger"), 1, 2)
     bad["ntStart_arg"] = None
-    bad["expect_error"] = "value_error"
+    bad["expect_error"] = "value_error"   # (documentation only: the Lean side decides legality)
     cases.append(bad)
-    # 1-D space domains: the current code passes a list of keys to the 1-D sampler and jax rejects it
-    # (TypeError) as soon as trigger_rar is traced; accepted either way (a repaired code path is
-    # judged like every other case)
-    for kind, T, X in (("statio", None, _STATIO[3][1]), ("nonstatio", _NONSTATIO[2][1], _NONSTATIO[2][2])):
-        c1 = _with_schedule(_base(rng, kind, 1, T, X, "trigger"), 1, 2)
-        c1["may_reject"] = "type_error"
-        cases.append(c1)
     return cases
 
 
@@ -240,17 +243,20 @@ def iteration_records(case, obs):
 
 
 def lean_request(case, obs):
+    req = {"op": "c16", "cfg": rarlib.cfg_json(case), "sizes": rarlib.sizes_json(case)}
     if "error" in obs:
-        return None
-    return {"op": "c16", "cfg": rarlib.cfg_json(case), "trace": iteration_records(case, obs)}
+        return {**req, "rejected": obs["error"], "trace": []}
+    return {**req, "trace": iteration_records(case, obs)}
 
 
 def judge(case, obs, answer):
     if "error" in obs:
-        if obs["error"] in (case.get("expect_error"), case.get("may_reject")):
-            return {"status": "ok", "clause": None}
-        return {"status": "disagree", "clause": "unexpected-rejection:" + obs["error"], "message": obs.get("message")}
-    if case.get("expect_error"):
+        # Holds.C16: a legal configuration must not be rejected (constructor or trace time)
+        if not answer["holds"]:
+            return {"status": "violation", "clause": answer["clause"], "error": obs["error"],
+                    "message": obs.get("message")}
+        return {"status": "ok", "clause": None}
+    if not answer["legal"]:
         return {"status": "disagree", "clause": "accepted-although-the-model-rejects"}
     if not answer["holds"]:
         return {"status": "violation", "clause": answer["clause"]}
@@ -283,7 +289,7 @@ def tags(case, obs):
         return ["rejected:" + obs["error"]]
     cap = rarlib.cap_of(case)
     st = _steps(obs)
-    out = [f"kind={case['kind']}", f"mode={case['mode']}", f"capacity={cap}", f"steps={len(st)}",
+    out = [f"kind={case['kind']}", f"mode={case['mode']}", f"dim={case['dim']}", f"capacity={cap}", f"steps={len(st)}",
            f"start={case['start']}", f"every={case['every']}"]
     if len(st) == cap:
         out.append("capacity-exhausted")
